@@ -344,14 +344,18 @@ def r_stack_dual(cx):
                         key, tr = _arg_transform(f, bb)
                         arms.setdefault(lit, []).append((callee.split("::")[-1], key, tr))
             is_swap = callee.endswith("<impl [T]>::swap")
+            which = _swap_which(f, bb) if is_swap else None
             if not is_swap and callee.startswith("inner_op::stack::") and callee not in PRIMS and cx.f.has_fn(callee):
                 # a private helper that does the swap (shared by both directions)
                 h = cx.f.fn(callee)
-                is_swap = any((h.callee(t2) or "").endswith("<impl [T]>::swap") for _, t2 in h.calls())
+                for b2, t2 in h.calls():
+                    if (h.callee(t2) or "").endswith("<impl [T]>::swap"):
+                        is_swap = True
+                        which = _swap_which(h, b2)
             if is_swap:
                 for (succ, lhs, lit) in tests:
                     if f.dominates(succ, bb):
-                        arms.setdefault(lit, []).append(("swap", None, "id"))
+                        arms.setdefault(lit, []).append(("swap", None, which))
         for lit, w in sorted(want[role].items()):
             got = arms.get(lit, [])
             exp = (w["primitive"], w.get("key"), w["args"])
@@ -361,6 +365,25 @@ def r_stack_dual(cx):
                       fn, lit, exp[0], exp[1], exp[2]) if ok else
                   "%s: action %r must run %s(series %r, args %s) but runs %s" % (fn, lit, exp[0], exp[1], exp[2], got or "nothing"),
                   where)
+
+
+def _swap_which(f, bb):
+    """"id" when the two positions exchanged are the top two of the stack (len - 1 and len - 2), else a description"""
+    offs = []
+    for a in f.arg_terms(bb)[1:]:
+        a = mir.strip_refs(a)
+        o = None
+        if a[0] == "bin" and a[1] == "Sub" and is_const_num(a[3]) and isinstance(a[3][2], int):
+            b = mir.strip_refs(a[2])
+            if b[0] == "call" and isinstance(b[1], str) and b[1].endswith("::len"):
+                o = a[3][2]
+        if a[0] == "call" and isinstance(a[1], str) and a[1].rsplit("::", 1)[-1] in ("saturating_sub", "wrapping_sub") and \
+                len(a[2]) == 2 and is_const_num(a[2][1]):
+            b = mir.strip_refs(a[2][0])
+            if b[0] == "call" and isinstance(b[1], str) and b[1].endswith("::len"):
+                o = a[2][1][2]
+        offs.append(o)
+    return "id" if sorted(offs, key=str) == [1, 2] else "positions %s" % ([mir.show(mir.strip_refs(a), maxd=4) for a in f.arg_terms(bb)[1:]],)
 
 
 def _outer_domain(f, lp):
